@@ -5,6 +5,7 @@ use crate::ast::*;
 use crate::common::*;
 use crate::mcheck::{self, Case, Hooks};
 use crate::mval::*;
+use proto::Request;
 use serde_json::json;
 use std::collections::{HashSet, VecDeque};
 use std::rc::Rc;
@@ -215,6 +216,92 @@ fn program(history: &[Op], ops: &[Op], keys: &[PoolKey], other_ranges: usize) ->
     prog
 }
 
+
+/// Comparisons that meet a self-containing structure have no memory.  Whatever `x == cyclic` (or the other
+/// way round) answers, the operands are afterwards what they were: a plain container still equals a
+/// separately built copy of itself (both ways round), still selects its map entry, still is found inside
+/// other containers; the cyclic structure still equals itself.  Expected lines do not depend on what the
+/// comparison with the cyclic structure itself answers (it is not printed).  Shared by C05 (`==` depends on
+/// its operands alone), C12 (keys that are == denote one entry) and C16 (a key that stops matching makes a
+/// map grow).
+pub fn comparisons_with_cyclic_structures_have_no_memory() -> Vec<crate::expect::Expect> {
+    use crate::expect::Expect;
+    let cyclics: [(&str, &str); 6] = [
+        ("vec in itself", "var cyc = [1]; cyc.push(cyc);"),
+        ("vec in a tuple in the vec", "var inner = []; var cyc = (inner,); inner.push(cyc);"),
+        ("tuple reached through its vec", "var cyc = []; var zz_t = (cyc,); cyc.push(zz_t);"),
+        ("map holding itself as a value", "var cyc = {}; cyc.insert(1, cyc);"),
+        ("vec holding a map holding the vec", "var cyc = []; var zz_m = {1: cyc}; cyc.push(zz_m);"),
+        ("two vecs holding each other", "var cyc = []; var zz_o = [cyc]; cyc.push(zz_o);"),
+    ];
+    // plain operands, each with the text of a separately built equal copy
+    let plains: [(&str, &str, bool); 7] = [
+        ("([1],)", "([1],)", false),
+        ("[[1]]", "[[1]]", false),
+        ("[1, [1]]", "[1, [1]]", false),
+        ("(1, 2)", "(1, 2)", true),
+        ("((1, 2),)", "((1, 2),)", true),
+        ("{1: [1]}", "{1: [1]}", false),
+        ("[{1: 2}]", "[{1: 2}]", false),
+    ];
+    let mut out = Vec::new();
+    for (cname, cyc) in cyclics {
+        for (plain, copy, hashable) in plains {
+            for order in 0..3 {
+                let compare = match order {
+                    0 => "var zz_r = (x == cyc);",
+                    1 => "var zz_r = (cyc == x);",
+                    _ => "var zz_r = (x == cyc); zz_r = (cyc == x); zz_r = (x != cyc); zz_r = ([x] == [cyc]); zz_r = ((x,) == (cyc,));",
+                };
+                let mut src = format!("{}\nvar x = {};\nvar y = {};\n{}\n", cyc, plain, copy, compare);
+                let mut expect: Vec<String> = Vec::new();
+                let mut line = |code: &str, want: &str, src: &mut String, expect: &mut Vec<String>| {
+                    src.push_str(&format!("print({});\n", code));
+                    expect.push(want.to_string());
+                };
+                line("x == y", "true", &mut src, &mut expect);
+                line("y == x", "true", &mut src, &mut expect);
+                line("x != y", "false", &mut src, &mut expect);
+                line("[x] == [y]", "true", &mut src, &mut expect);
+                line("(0, x) == (0, y)", "true", &mut src, &mut expect);
+                line("cyc == cyc", "true", &mut src, &mut expect);
+                line("x == x", "true", &mut src, &mut expect);
+                if hashable {
+                    src.push_str("var zz_map = {x: \"first\"};\nzz_map.insert(y, \"second\");\nfor i in 0..5 { zz_map.insert(" );
+                    src.push_str(copy);
+                    src.push_str(", i); }\n");
+                    line("zz_map.len()", "1", &mut src, &mut expect);
+                    line("zz_map.get(x)", "4", &mut src, &mut expect);
+                    line("zz_map.has_key(y)", "true", &mut src, &mut expect);
+                }
+                // and once more after the comparison was repeated
+                src.push_str(compare);
+                src.push('\n');
+                line("x == y", "true", &mut src, &mut expect);
+                line("y == x", "true", &mut src, &mut expect);
+                out.push(Expect {
+                    family: "comparisons_with_cyclic_structures_have_no_memory",
+                    request: Request { op: "run".into(), snippets: vec![src], fuel: Some(2_000_000), ..Default::default() },
+                    out: vec![expect],
+                    end: vec!["ok".into()],
+                    describe: json!({"cyclic": cname, "plain": plain, "order": order}),
+                    nontrivial: true,
+                });
+            }
+        }
+    }
+    out
+}
+
+/// runs the shared family and adds what it finds to the report
+pub fn run_cyclic_family(ctx: &Ctx, report: &mut Report) {
+    let cases = comparisons_with_cyclic_structures_have_no_memory();
+    let n = cases.len();
+    let st = crate::expect::run_expect(ctx, &ctx.runner_checked, cases.into_iter(), &|_e, _r| None, &|_e, _p| None);
+    report.cov("comparisons_with_cyclic_structures_have_no_memory", json!({"programs": n, "rule": "six self-containing structures x seven plain containers x three orders of comparison: after comparing a plain container with a self-containing structure (the answer itself is not looked at) the plain container still equals a separately built copy both ways round, alone and inside other containers, still selects and overwrites one map entry, and the structure still equals itself"}));
+    report.violations.extend(st.violations);
+}
+
 pub fn run(ctx: &Ctx) -> Report {
     let mut report = Report::new();
     let thorough = ctx.thorough();
@@ -401,5 +488,6 @@ pub fn run(ctx: &Ctx) -> Report {
     report.cov("programs", json!(n_cases));
     report.assumptions = vec!["keys/values/items are compared as multisets through order-independent probes".into(), "an overwritten entry keeps the key object that was inserted first".into()];
     report.violations = stats.violations;
+    crate::c12::run_cyclic_family(ctx, &mut report);
     report
 }
